@@ -275,6 +275,65 @@ def chunks_to_index_loop(s, rewrites=None):
     return s
 
 
+def position_to_loop(s, rewrites=None):
+    """D17: the expression `E.iter().position(|x| PRED)` over a Vec/VecDeque place E (PRED an expression) becomes the search
+    loop it stands for, as a block expression:
+        { let mut pos_x: usize = 0; let mut found_x: Option<usize> = None;
+          while found_x.is_none() && pos_x < E.len() { let x = &E[pos_x]; if PRED { found_x = Some(pos_x); } else { pos_x += 1; } }
+          found_x }
+    (position returns the index of the first element for which the closure is true)."""
+    rx = re.compile(r'((?:self|\w+)(?:\s*\.\s*\w+)*)\s*\.iter\(\)\s*\.position\(\|(\w+)\|\s*')
+    while True:
+        m = rx.search(s)
+        if not m:
+            return s
+        e = re.sub(r'\s+', '', m.group(1))
+        x = m.group(2)
+        op = s.rfind('(', m.start(), m.end())            # the '(' of position(
+        cp = _match(s, op, '(', ')')
+        pred = s[m.end():cp].strip()
+        if pred.startswith('{') or re.search(r'\breturn\b|\?', pred):
+            raise Undecided('unsupported construct: position closure with a block body or early exit (D17 not applicable)')
+        new = ('{ let mut pos_%(x)s: usize = 0; let mut found_%(x)s: Option<usize> = None;\n'
+               '            while found_%(x)s.is_none() && pos_%(x)s < %(e)s.len() {\n'
+               '                let %(x)s = &%(e)s[pos_%(x)s];\n'
+               '                if %(p)s { found_%(x)s = Some(pos_%(x)s); } else { pos_%(x)s += 1; }\n'
+               '            }\n'
+               '            found_%(x)s }') % dict(x=x, e=e, p=pred)
+        if rewrites is not None:
+            rewrites.append('D17 position over %s' % e)
+        s = s[:m.start()] + new + s[cp + 1:]
+
+
+def retain_to_loop(s, rewrites=None):
+    """D18: the statement `E.retain(|x| BODY);` over a Vec/VecDeque place E becomes the in-place filter loop it stands for:
+        let mut idx_x: usize = 0;
+        while idx_x < E.len() { let x = &E[idx_x]; let keep_x: bool = BODY; if keep_x { idx_x += 1; } else { let _ = E.remove(idx_x); } }
+    (retain keeps exactly the elements for which the closure is true, in order). Refused when BODY has `return` or `?`."""
+    rx = re.compile(r'^([ \t]*)((?:self|\w+)(?:\s*\.\s*\w+)*)\s*\.retain\(\|(\w+)\|\s*', re.M)
+    while True:
+        m = rx.search(s)
+        if not m:
+            return s
+        ind = m.group(1)
+        e = re.sub(r'\s+', '', m.group(2))
+        x = m.group(3)
+        op = s.rfind('(', m.start(), m.end())
+        cp = _match(s, op, '(', ')')
+        body = s[m.end():cp].strip()
+        if re.search(r'\breturn\b|\?', body):
+            raise Undecided('unsupported construct: retain closure with early exit (D18 not applicable)')
+        end = cp + 1
+        if s[end:end + 1] == ';':
+            end += 1
+        new = ('%(i)slet mut idx_%(x)s: usize = 0;\n%(i)swhile idx_%(x)s < %(e)s.len() {\n%(i)s    let %(x)s = &%(e)s[idx_%(x)s];\n'
+               '%(i)s    let keep_%(x)s: bool = %(b)s;\n%(i)s    if keep_%(x)s { idx_%(x)s += 1; } else { let _ = %(e)s.remove(idx_%(x)s); }\n%(i)s}'
+               ) % dict(i=ind, x=x, e=e, b=body)
+        if rewrites is not None:
+            rewrites.append('D18 retain over %s' % e)
+        s = s[:m.start()] + new + s[end:]
+
+
 def iter_to_index_loop(s, rewrites=None):
     """D15 (plain form): `for x in v.iter() { BODY }` over a slice/Vec `v` becomes
         let mut idx_x: usize = 0; while idx_x < v.len() { let x = &v[idx_x]; BODY idx_x += 1; }
